@@ -83,7 +83,15 @@ func evalC04(c c04Case) *Failure {
 	if o.Panic != nil {
 		return failf("c04|panic|"+panicKey(o), "%s: panic: %v", what, o.Panic)
 	}
-	return c04CheckOut(what, conn.Out(), len(c.Stream))
+	nreq := len(c.Stream)
+	for i, v := range c.Stream {
+		// QUIT is answered and ends the connection: nothing behind it is answered
+		if v.Kind == resp.Array && len(v.Elems) == 1 && v.Elems[0].Kind == resp.Bulk && strings.EqualFold(string(v.Elems[0].Data), "QUIT") {
+			nreq = i + 1
+			break
+		}
+	}
+	return c04CheckOut(what, conn.Out(), nreq)
 }
 
 // c04CheckOut: the bytes written on a connection are exactly one well-formed frame per request.
@@ -318,7 +326,7 @@ func genC04Case(rt *rapid.T, avoid func(string) bool) (c04Case, map[string]bool)
 			var r c04Result
 			switch rapid.IntRange(0, 6).Draw(rt, "rescls") {
 			case 6:
-				r.Odd = rapid.SampledFrom([]string{"nil-array", "no-type", "unknown-type", "nil-in-array"}).Draw(rt, "odd")
+				r.Odd = rapid.SampledFrom([]string{"nil-array", "no-type", "unknown-type", "nil-in-array", "nil-in-big-array"}).Draw(rt, "odd")
 				labels["nil-result"] = true
 				labels["odd-message"] = true
 			case 0:
@@ -355,7 +363,7 @@ func genC04Case(rt *rapid.T, avoid func(string) bool) (c04Case, map[string]bool)
 func TestC04(t *testing.T) {
 	h := newHarness(t, "C04", "client streams of 1..6 valid RESP values of every type: command arrays with hostile arguments (all byte values, CRLF followed by forged +OK/:1/$-1 frames) in names, keys and values; "+
 		"non-array top-level values; arrays whose first element is null, an integer, an error, a nested or empty array; empty arrays. Handler = recording double scripted with arbitrary value trees, nil messages, "+
-		"errors with arbitrary text, message+error (for pass-through commands), or the bundled example store (stored values echoed back). A second generator holds back every reply write of one connection (a slow reader) while a peer connection is served, then lets it through: the bytes delivered must be the bytes serialized. Oracle: the whole output decodes under the strict decoder into exactly one frame per request, "+
+		"errors with arbitrary text, message+error (for pass-through commands), or the bundled example store (stored values echoed back). A generator of pipelines with replies of several KiB and QUIT somewhere inside (everything written before the connection ends must be complete frames). Another holds back every reply write of one connection (a slow reader) while a peer connection is served, then lets it through: the bytes delivered must be the bytes serialized. Oracle: the whole output decodes under the strict decoder into exactly one frame per request, "+
 		"no status/error frame carries CR or LF. Non-trivial: CR/LF in a position that can reach a reply, a request that is not an array of bulks, or a nil/error handler result. Distinct = distinct (stream, script).")
 	defer h.Finish()
 	h.Probes()
@@ -378,6 +386,44 @@ func TestC04(t *testing.T) {
 			}
 			h.Col.Sample(map[string]any{"stream": ss, "handler": c.Handler, "scripted_results": len(c.Results)})
 		}
+		h.Fail(rt, "c04.stream", c, evalC04(c))
+	})
+
+	// replies of several KiB in one pipeline, QUIT somewhere inside it: whatever buffering the reply path uses,
+	// what has been written when the connection ends is complete frames only
+	h.Rapid("big-replies", h.N(1500, 30000), func(rt *rapid.T) {
+		c := c04Case{Handler: rapid.SampledFrom([]string{"example", "example", "recorder"}).Draw(rt, "handler")}
+		big := strings.Repeat(rapid.SampledFrom([]string{"A", "xy", "\r\n+OK"}).Draw(rt, "motif"), rapid.SampledFrom([]int{100, 700, 2000, 5000}).Draw(rt, "rep"))
+		c.Stream = append(c.Stream, resp.Cmd("SET", "k", big))
+		n := rapid.IntRange(1, 8).Draw(rt, "n")
+		quitAt := rapid.IntRange(0, n+1).Draw(rt, "quitat") // n+1: no QUIT
+		for i := 0; i < n; i++ {
+			if i == quitAt {
+				c.Stream = append(c.Stream, resp.Cmd(rapid.SampledFrom([]string{"QUIT", "quit"}).Draw(rt, "quit")))
+			}
+			switch rapid.IntRange(0, 3).Draw(rt, "bigcmd") {
+			case 0:
+				c.Stream = append(c.Stream, resp.Cmd("GET", "k"))
+			case 1:
+				args := []string{"MGET"}
+				for j, m := 0, rapid.IntRange(1, 8).Draw(rt, "nkeys"); j < m; j++ {
+					args = append(args, rapid.SampledFrom([]string{"k", "k", "missing"}).Draw(rt, "mkey"))
+				}
+				c.Stream = append(c.Stream, resp.Cmd(args...))
+			case 2:
+				c.Stream = append(c.Stream, resp.Cmd("ECHO", big))
+			default:
+				c.Stream = append(c.Stream, resp.Cmd("PING"))
+			}
+		}
+		if quitAt == n {
+			c.Stream = append(c.Stream, resp.Cmd("QUIT"))
+		}
+		data, _ := resp.EncodeAll(c.Stream)
+		if rapid.IntRange(0, 2).Draw(rt, "chunked") == 0 {
+			c.Sizes = resp.GenSizes(data).Draw(rt, "sizes")
+		}
+		h.Col.Case(true, append(append([]byte{}, data...), []byte(fmt.Sprint(c.Handler, c.Sizes))...), "big-replies", "handler:"+c.Handler)
 		h.Fail(rt, "c04.stream", c, evalC04(c))
 	})
 
